@@ -22,6 +22,10 @@
 #include <poll.h>
 #include <signal.h>
 #include <sys/stat.h>
+#include <sched.h>
+#include <sys/mount.h>
+#include <sys/ioctl.h>
+#include <net/if.h>
 
 extern size_t __sanitizer_get_current_allocated_bytes(void);
 
@@ -427,13 +431,86 @@ static void run_midload(long idx, vrng *r, bool btls)
     vsig_str(btls ? "midload|btls" : "midload|tls");
 }
 
+
+/* ---- NAMED NETWORK NAMESPACE: a thread in the namespace <ns> takes cert_<ns>.pem, key_<ns>.pem, tc_<ns>.pem and crl_<ns>.pem from the
+ * XCM_TLS_CERT directory - all four, never the default namespace's file for one of them.  The case process (a forked child) moves into a
+ * network namespace of its own and registers it under a name in a private /run/netns ---- */
+static bool enter_named_netns(const char *name)
+{
+    if (unshare(CLONE_NEWNS | CLONE_NEWNET) < 0) return false;
+    if (mount("none", "/", NULL, MS_REC | MS_PRIVATE, NULL) < 0) return false;
+    mkdir("/run/netns", 0755);
+    if (mount("tmpfs", "/run/netns", "tmpfs", 0, NULL) < 0) return false;
+    char p[160]; snprintf(p, sizeof p, "/run/netns/%s", name);
+    int fd = open(p, O_CREAT | O_RDONLY, 0444); if (fd < 0) return false; close(fd);
+    if (mount("/proc/self/ns/net", p, NULL, MS_BIND, NULL) < 0) return false;
+    int sk = socket(AF_INET, SOCK_DGRAM, 0); if (sk < 0) return false;
+    struct ifreq ifr; memset(&ifr, 0, sizeof ifr); snprintf(ifr.ifr_name, sizeof ifr.ifr_name, "lo");
+    bool up = ioctl(sk, SIOCGIFFLAGS, &ifr) == 0; if (up) { ifr.ifr_flags |= IFF_UP; up = ioctl(sk, SIOCSIFFLAGS, &ifr) == 0; }
+    close(sk);
+    return up;
+}
+
+static void run_netns(long idx, vrng *r, bool btls)
+{
+    (void)idx;
+    const char *proto = btls ? "btls" : "tls", *ns = "c18ns";
+    if (!enter_named_netns(ns)) { vobs("namespace_setup_failed", 1); return; }
+    char d[700], p[900]; snprintf(d, sizeof d, "%s/nsdir", base); mkdir(d, 0700);
+    const struct vpki_ent *srv = idA[0], *revoked = idA[1 + vrnd_n(r, NID - 1)];
+    const struct vpki_ent *good = idA[1]; if (good == revoked) good = idA[2];
+    struct vpki_ent *rv[1] = { (struct vpki_ent *)revoked };
+    char *crl_ns = vpki_make_crl(rootA, rv, 1, -3600, 86400 * 30), *crl_def = vpki_make_crl(rootA, NULL, 0, -3600, 86400 * 30);
+    /* the namespace's files ... */
+    snprintf(p, sizeof p, "%s/cert_%s.pem", d, ns); write_inplace(p, srv->cert_pem);
+    snprintf(p, sizeof p, "%s/key_%s.pem", d, ns); write_inplace(p, srv->key_pem);
+    snprintf(p, sizeof p, "%s/tc_%s.pem", d, ns); write_inplace(p, rootA->cert_pem);
+    snprintf(p, sizeof p, "%s/crl_%s.pem", d, ns); write_inplace(p, crl_ns);
+    /* ... and the default namespace's, which differ in every item */
+    snprintf(p, sizeof p, "%s/cert.pem", d); write_inplace(p, idB[0]->cert_pem);
+    snprintf(p, sizeof p, "%s/key.pem", d); write_inplace(p, idB[0]->key_pem);
+    snprintf(p, sizeof p, "%s/tc.pem", d); write_inplace(p, rootB->cert_pem);
+    snprintf(p, sizeof p, "%s/crl.pem", d); write_inplace(p, crl_def);
+    free(crl_ns); free(crl_def);
+    setenv("XCM_TLS_CERT", d, 1);
+    struct server sv; memset(&sv, 0, sizeof sv);
+    struct xcm_attr_map *sm = xcm_attr_map_create(); xcm_attr_map_add_bool(sm, "xcm.blocking", false); if (btls) xcm_attr_map_add_str(sm, "xcm.service", "bytestream");
+    xcm_attr_map_add_bool(sm, "tls.check_crl", true);
+    char a[64]; snprintf(a, sizeof a, "%s:127.0.0.1:0", proto);
+    { SCX("xcm_server_a", 2); sv.s = xcm_server_a(a, sm); vs_leave(); }
+    xcm_attr_map_destroy(sm);
+    if (!sv.s) { cv("namespace-material-not-used", "server", "in the named namespace '%s', with cert_/key_/tc_/crl_%s.pem complete, xcm_server_a(tls.check_crl=true) failed with errno %d (%s)", ns, ns, errno, strerror(errno)); return; }
+    sv.port = atoi(strrchr(xcm_local_addr(sv.s), ':') + 1);
+    vobs("servers_in_a_named_namespace", 1);
+    for (int k = 0; k < 2; k++) {
+        const struct vpki_ent *who = k == 0 ? good : revoked;
+        struct xcm_attr_map *cm = xcm_attr_map_create(); xcm_attr_map_add_bool(cm, "xcm.blocking", false); if (btls) xcm_attr_map_add_str(cm, "xcm.service", "bytestream");
+        add_by_value(cm, (struct ident){ who, 0 });
+        struct conn c; memset(&c, 0, sizeof c); int cerr, aerr;
+        open_conn(&c, &sv, cm, NULL, proto, &cerr, &aerr);
+        xcm_attr_map_destroy(cm);
+        if (k == 0) {
+            char cn[200] = "";
+            if (!c.up) cv("namespace-material-not-used", "good-client", "a client that the namespace's trust bundle and CRL admit was refused (client errno %d, server errno %d)", cerr, aerr);
+            else if (get_cn(c.cl, cn, sizeof cn) && strcmp(cn, srv->name)) cv("namespace-material-not-used", "server-identity", "the server in namespace '%s' presents '%s', the namespace's certificate is '%s'", ns, cn, srv->name);
+            else vobs("namespace_identities_verified", 1);
+        } else {
+            if (c.up) cv("namespace-material-not-used", "crl", "the client certificate '%s' is revoked by crl_%s.pem (the default namespace's crl.pem revokes nobody): the connection was admitted", who->name, ns);
+            else vobs("namespace_revocations_verified", 1);
+        }
+        close_conn(&c);
+    }
+    { SCX("xcm_close", 2); xcm_close(sv.s); vs_leave(); }
+    vsig_str(btls ? "netns|btls" : "netns|tls");
+}
+
 /* ---- MALFORMED ---- */
 static void run_malformed(long idx, vrng *r, bool btls)
 {
     (void)idx;
     const char *proto = btls ? "btls" : "tls";
     struct cdir d; memset(&d, 0, sizeof d); snprintf(d.path, sizeof d.path, "%s/bad", base); mkdir(d.path, 0700);
-    for (int k = 0; k < 12; k++) {
+    for (int k = 0; k < 15; k++) {
         cdir_set(&d, (struct ident){ idA[0], 0 }, 0);
         char cp[800], kp[800], tp[800]; snprintf(cp, sizeof cp, "%s/cert.pem", d.path); snprintf(kp, sizeof kp, "%s/key.pem", d.path); snprintf(tp, sizeof tp, "%s/tc.pem", d.path);
         const char *what;
@@ -450,6 +527,11 @@ static void run_malformed(long idx, vrng *r, bool btls)
         case 9: write_inplace(kp, idRSA->key_pem); what = "RSA key with an EC certificate (another algorithm: only the final consistency check can notice)"; break;
         case 10: write_inplace(cp, idRSA->cert_pem); what = "RSA certificate with an EC key"; break;
         case 11: by_value = true; xcm_attr_map_add_bin(m, "tls.cert", idRSA->cert_pem, strlen(idRSA->cert_pem)); xcm_attr_map_add_bin(m, "tls.key", idA[0]->key_pem, strlen(idA[0]->key_pem)); xcm_attr_map_add_bin(m, "tls.tc", rootA->cert_pem, strlen(rootA->cert_pem)); what = "by-value RSA certificate with an EC key"; break;
+        case 12: { char *b = vpki_concat(rootA->cert_pem, "-----BEGIN CERTIFICATE-----\nAAAAinvalid*base64!!\n-----END CERTIFICATE-----\n"); write_inplace(tp, b); free(b); what = "trust bundle: first certificate intact, second one damaged (bad base64)"; break; }
+        case 13: { char *b = vpki_concat(rootA->cert_pem, rootB->cert_pem); b[strlen(b) - 120] = 0; write_inplace(tp, b); free(b); what = "trust bundle: second certificate cut off in the middle"; break; }
+        case 14: { by_value = true; char *b = vpki_concat(rootA->cert_pem, "-----BEGIN CERTIFICATE-----\nTm90IERFUiBhdCBhbGwsIGp1c3QgdGV4dA==\n-----END CERTIFICATE-----\n");
+                   xcm_attr_map_add_bin(m, "tls.cert", idA[0]->cert_pem, strlen(idA[0]->cert_pem)); xcm_attr_map_add_bin(m, "tls.key", idA[0]->key_pem, strlen(idA[0]->key_pem)); xcm_attr_map_add_bin(m, "tls.tc", b, strlen(b)); free(b);
+                   what = "by-value trust bundle: second entry is valid armour around something that is no certificate"; break; }
         default: unlink(cp); mkdir(cp, 0700); what = "certificate path is a directory"; break;
         }
         if (!by_value) add_by_files(m, &d);
@@ -475,12 +557,13 @@ static void one_case(long idx, void *arg)
     long gi = idx * va.nworkers + va.worker;
     unsigned k = (unsigned)(gi % 10); bool btls = (gi / 10) % 2;
     bool midload = k == 5;          /* one history slot in six goes to updates that land inside a load */
-    const char *fam = midload ? "update-during-load" : k < 6 ? "history" : k < 8 ? "twins" : k < 9 ? "release" : "malformed";
+    bool netns = k == 4 && (gi / 20) % 2 == 0;      /* and every other of another one to the named-namespace file naming */
+    const char *fam = netns ? "named-namespace" : midload ? "update-during-load" : k < 6 ? "history" : k < 8 ? "twins" : k < 9 ? "release" : "malformed";
     snprintf(ctx, sizeof ctx, "{\"case\":%ld,\"sub_seed\":\"%" PRIu64 "\",\"family\":\"%s\",\"transport\":\"%s\"}", idx, ss, fam, btls ? "btls" : "tls");
     VLOG("case %s", ctx);
     snprintf(base, sizeof base, "%s/c18-%d", va.dir, (int)getpid()); mkdir(base, 0700);
     store_init();
-    if (midload) run_midload(idx, &r, btls); else if (k < 6) run_history(idx, &r, btls); else if (k < 8) run_twins(idx, &r, btls); else if (k < 9) run_release(idx, &r, btls); else run_malformed(idx, &r, btls);
+    if (netns) run_netns(idx, &r, btls); else if (midload) run_midload(idx, &r, btls); else if (k < 6) run_history(idx, &r, btls); else if (k < 8) run_twins(idx, &r, btls); else if (k < 9) run_release(idx, &r, btls); else run_malformed(idx, &r, btls);
     { char cmd[700]; snprintf(cmd, sizeof cmd, "rm -rf '%s'", base); if (system(cmd)) {} }
     char cl[64]; snprintf(cl, sizeof cl, "%s/%s", fam, btls ? "btls" : "tls"); vclass(cl);
     if (idx < 2) vsample(ctx);
